@@ -378,11 +378,17 @@ NoOrphan == kind # "pchan" => \A c \in Calls : cs[c] # "dropped"
 (* delivered, no live idle lane has work, and a closed idle lane is gone   *)
 (* (a Stop that has not returned yet may be parked: it may be waiting for  *)
 (* the lanes).                                                             *)
-Quiescent ==
+(* H: callers that have handed their call over but have not yet looked at   *)
+(* their context and result (a descheduled submitter); a reply that waits    *)
+(* for one of them is the environment's delay, not the executor's.           *)
+QuiescentBut(H) ==
   /\ \A c \in Calls :
        /\ cw[c] \notin {"called", "rej"}
-       /\ cw[c] = "wait" => ~(cs[c] = "done" \/ ctxd[c] \/ (kind = "pchan" /\ qclosed[0]))
+       /\ (cw[c] = "wait" /\ c \notin H) =>
+            ~(cs[c] = "done" \/ ctxd[c] \/ (kind = "pchan" /\ qclosed[0]))
   /\ \A x \in LaneIds : (up[x] /\ ~Busy(x)) => (queue[x] = <<>> /\ ~qclosed[x])
+
+Quiescent == QuiescentBut({})
 
 (* The quiescent state at the end of a run in which the environment has    *)
 (* started the consumers, called Stop and let every callee that asked       *)
